@@ -213,11 +213,16 @@ SPEC = {
                         "the running code per value class (Bridge.Clone)"],
     },
     "C07": {
-        "LEAN": {"modules": ["GfaProofs.Bridge.Regex", "GfaProofs.C07"], "support": ["GfaModel.Partial", "GfaModel.Field", "GfaProofs.Lemmas.Digits"],
-                 "theorems": ["Gfa.C07.decodeTag_no_foreign", "Gfa.C07.decodePos_no_foreign", "Gfa.C07.recordType_no_foreign",
+        "LEAN": {"modules": ["GfaProofs.Bridge.Regex", "GfaProofs.C07", "GfaProofs.C07Regex"], "support": ["GfaModel.Partial", "GfaModel.Field", "GfaProofs.Lemmas.Digits"],
+                 "theorems": ["Gfa.C07Regex.oidList_old_iff_new", "Gfa.C07Regex.oidList_accepts_eq", "Gfa.C07Regex.model_uses_new",
+                              "Gfa.Bridge.Regex.re_oidListGfa1", "Gfa.C07.decodeTag_no_foreign", "Gfa.C07.decodePos_no_foreign", "Gfa.C07.recordType_no_foreign",
                               "Gfa.C07.parseLine_no_foreign", "Gfa.C07.pyInt_ok_of_accept", "Gfa.C07.unhexlify_ok_of_accept",
                               "Gfa.C07.idx0_ok_of_accept", "Gfa.Bridge.Regex.re_i", "Gfa.Bridge.Regex.re_H", "Gfa.Bridge.Regex.re_A"]},
-        "ASSUMPTIONS": ["the partial Python primitives (int(), binascii.unhexlify, s[0], list[i], json.loads) are modelled by `Outcome` "
+        "ASSUMPTIONS": ["termination: the expression that validated a list of oriented GFA1 names was ambiguous (exponential backtracking in Python's "
+                        "re, repaired in 93e5bab); oidList_old_iff_new proves that the repaired expression denotes the same language, the bridge "
+                        "re_oidListGfa1 ties the model to the literal now in the source; that Python's matcher is linear on the new expression and "
+                        "every other run-time bound is decided by the oracle's per-call alarm",
+                        "the partial Python primitives (int(), binascii.unhexlify, s[0], list[i], json.loads) are modelled by `Outcome` "
                         "functions that fail exactly where CPython raises; the parsing pipeline (record type dispatch, positional "
                         "fields, tags, decode after validation) is modelled, the graph operations and the API beyond parsing are "
                         "decided by the oracle on the real library",
